@@ -115,3 +115,57 @@ Fixpoint trav_dict (checked : bool) (keys : list Z) (i : nat) (script : list mut
 
 Definition flatten_dict_mut (checked : bool) (script : list mut) (d : zdict) : res (list Z) :=
   trav_dict checked (map fst d) 0 script d.
+
+(* ================= unflatten while user code mutates the list of leaves ================= *)
+(* UnflattenImpl (src/treespec/unflatten.cpp) takes the leaves through the Python iterator protocol:
+   a list iterator reads item idx of the CURRENT list (bounds-checked; once it has run off the end it
+   stays exhausted), and pybind11's iterator fetches the next item as soon as the current one has been
+   taken (`++it`), i.e. BEFORE the node rebuilt next runs user code (an unflatten function, a namedtuple
+   subclass constructor, a key's __hash__).  The treespec here is n leaves each followed by one such
+   callback (the script's i-th mutation of the leaves list).
+   checked = false is a variant that captures the item array and its size up front and indexes it
+   unchecked: an out-of-range / dangling read as soon as the list shrinks. *)
+Record lit := { li_idx : nat; li_done : bool }.
+
+Definition lit_next (s : lit) (l : list Z) : option Z * lit :=
+  if li_done s then (None, s)
+  else match nth_error l (li_idx s) with
+       | Some x => (Some x, {| li_idx := S (li_idx s); li_done := false |})
+       | None => (None, {| li_idx := li_idx s; li_done := true |})
+       end.
+
+Fixpoint unfl_loop (remaining i : nat) (script : list mut) (cur : option Z) (s : lit) (l : list Z)
+  : res (list Z) :=
+  match remaining with
+  | O => match cur with Some _ => Err ValueError (* Too many leaves *) | None => Ok [] end
+  | S r =>
+    match cur with
+    | None => Err ValueError                                          (* Too few leaves *)
+    | Some x =>
+      let '(nx, s') := lit_next s l in                                (* ++it *)
+      let l' := mut_list (nth i script MNone) l in                    (* the node rebuilt next runs user code *)
+      do rest <- unfl_loop r (S i) script nx s' l' ;;
+      Ok (x :: rest)
+    end
+  end.
+
+(* the captured-array variant: n0 = size at entry, item i read from the current list without a check *)
+Fixpoint unfl_raw (remaining i n0 : nat) (script : list mut) (l : list Z) : res (list Z) :=
+  match remaining with
+  | O => if Nat.ltb i n0 then Err ValueError else Ok []
+  | S r =>
+    if Nat.leb n0 i then Err ValueError
+    else match nth_error l i with
+         | None => Err Crash
+         | Some x =>
+           let l' := mut_list (nth i script MNone) l in
+           do rest <- unfl_raw r (S i) n0 script l' ;;
+           Ok (x :: rest)
+         end
+  end.
+
+Definition unflatten_leaves_mut (checked : bool) (script : list mut) (n : nat) (l : list Z) : res (list Z) :=
+  if checked then
+    let '(c0, s0) := lit_next {| li_idx := 0; li_done := false |} l in
+    unfl_loop n 0 script c0 s0 l
+  else unfl_raw n 0 (length l) script l.
